@@ -70,7 +70,10 @@ def run_cfg(job):
         cfgd = case['cfg']
         load_emis_config(cfgd)
         fuel = fuel_obj()
-        pm = model()
+        # EmissionsConfig.tla ModelData: what the performance model says about its APU is optional data - an APU of the
+        # database, no APU name at all, a name the database does not know; every option combination meets one of the three
+        apuvar = ('running', 'absent', 'idle')[sum(map(ord, json.dumps(cfgd, sort_keys=True))) % 3]
+        pm = model(None, apuvar)
         traj = synthetic_traj([0, 2000, 0, 5000, 1000, 2000], 2, 2) if which == 'synthetic' else real_traj()
         allowed = [(o['kind'], o['method']) for o in case['outcomes']]
         short = {k: cfgd[k] for k in FIELDS}
